@@ -16,10 +16,12 @@ META = dict(
              'initialize_chemistry / fill_atmosphere / compute_mu_profile; molecular masses from '
              'taurex.util.get_molecular_weight',
              'two-point and power-law profiles are re-computed in interval arithmetic; array profile in rationals; '
-             'the two-layer profile (interpolation + moving average + splice) is checked by the property oracle '
-             '(length, finiteness, range of control values) only'],
+             'the two-layer profile is re-computed in rationals in log10 space (interpolation over ln P with numpy\'s '
+             'treatment of repeated nodes, moving average of odd width, splice); its index arithmetic (closest layer, '
+             'transition ends, window width) is replicated in the harness; ln and log10 of the inputs are taken in '
+             'Python'],
     modelled=['TaurexChemistry.initialize_chemistry, fill_atmosphere, AutoChemistry.compute_mu_profile, '
-              'determine_active_inactive (as flags), ConstantGas, TwoPointGas, ArrayGas, PowerGas'],
+              'determine_active_inactive (as flags), ConstantGas, TwoPointGas, ArrayGas, PowerGas, TwoLayerGas'],
     assumptions=['trace totals are generated either exactly representable or at least 1e-9 away from one (the '
                  'validity test compares a floating-point sum with 1.0)'],
 )
@@ -69,6 +71,7 @@ def run(ctx):
     rng = ctx.rng
     setup_active()
     e_mix, m_mix, e_arr, m_arr, e_tp, m_tp, e_pw, m_pw = [], [], [], [], [], [], [], []
+    e_tl, m_tl = [], []
     for i in range(ctx.n(100, 1200)):
         n = rng.choice([2, 3, 4, 5, 7, 9, 11, 13, 17, 20, 23, 33, 41, 60])
         nfill = rng.choice([1, 2, 2, 3, 4])
@@ -133,6 +136,17 @@ def run(ctx):
             if k == 'array':
                 e_arr.append('run_array %s %s' % (C.natlit(n), C.qlist(prm['arr'])))
                 m_arr.append(dict(pr=pr, rp=rp, key=('array', n, len(prm['arr']), float(pr[0]))))
+            elif k == 'twolayer' and np.all(pr > 0):
+                # index arithmetic as in TwoLayerGas.initialize_profile (replicated here, trusted); the profile itself
+                # (interpolation over ln P, moving average of odd width, splice) is the model, in log10 space
+                Pl = int(np.abs(P - prm['P']).argmin())
+                st_l = max(int(Pl - prm['sm'] / 2), 0)
+                en_l = min(int(Pl + prm['sm'] / 2), n - 1)
+                ws0 = int(n * (prm['sm'] / 100.0))
+                e_tl.append('run_twolayer %s %s %s %s %s %s' % (C.qlist(np.log(P).tolist()), C.natlit(st_l), C.natlit(en_l),
+                                                             C.q(float(np.log10(prm['s']))), C.q(float(np.log10(prm['t']))),
+                                                             C.natlit(ws0)))
+                m_tl.append(dict(pr=np.log10(pr), rp=rp, key=('twolayer', n, prm['sm'], float(pr[0]))))
             elif k == 'twopoint':
                 e_tp.append('run_twopoint %s %s %s' % (C.ivlist(P), C.iv(prm['s']), C.iv(prm['t'])))
                 m_tp.append(dict(pr=pr, rp=rp, key=('twopoint', n, float(pr[1 % n]))))
@@ -213,7 +227,8 @@ def run(ctx):
                           no_input=True)
         else:
             ctx.validated()
-    for tag, ex, ms, q in (('arr', e_arr, m_arr, True), ('tp', e_tp, m_tp, False), ('pw', e_pw, m_pw, False)):
+    for tag, ex, ms, q in (('arr', e_arr, m_arr, True), ('tp', e_tp, m_tp, False), ('pw', e_pw, m_pw, False),
+                           ('tl', e_tl, m_tl, 'log')):
         for mt, r in zip(ms, C.run_cases('C10_' + tag, HEADER, ex, shard=40)):
             bad = None
             if len(r) != len(mt['pr']):
@@ -221,7 +236,8 @@ def run(ctx):
             else:
                 for j, v in enumerate(r):
                     x = float(mt['pr'][j])
-                    okv = abs(x - float(C.q_out(v))) <= 1e-11 * abs(x) if q else C.in_enclosure(x, v, rel=1e-9)
+                    okv = (abs(x - float(C.q_out(v))) <= 1e-9) if q == 'log' else \
+                        abs(x - float(C.q_out(v))) <= 1e-11 * abs(x) if q else C.in_enclosure(x, v, rel=1e-9)
                     if not okv:
                         bad = 'layer %d: impl %r model %r' % (j, x, float(C.q_out(v)) if q else C.iv_mid(v))
             ctx.case(mt['key'])
